@@ -15,6 +15,9 @@ fault-prone there goes behind `SeamOS` / `SeamGlob` objects installed as the
   be pre-empted (a callback the code under test itself makes between two
   entries of a scan, or the per-entry `stat()` of a scan loop): the op says
   which complete operations of other actors run there;
+* `stat()` / `lstat()` and the `os.path` predicates built on them
+  (`exists`, `lexists`, `isdir`, ...) of one named entry fail with the errno
+  the op says (`stat_fault`: a transient EIO/ESTALE, EACCES) - `Seam.lookup`;
 * external commands (fake netdev / ipset / newnet calls) go through
   `Seam.command`: they are steps too, and the k-th command of the op raises
   `subproc.CalledProcessError` when the op says `fail_at = k`.
@@ -27,6 +30,7 @@ import glob as _real_glob
 import os as _real_os
 import re
 import shutil
+import stat as _stat_mod
 
 from . import SimCrash, HarnessError
 from . import rng as rngmod
@@ -65,10 +69,15 @@ class Seam:
         self.total_steps = 0
         self.on_step = None     # optional callable(kind, what)
         self.checkpoints = 0    # pre-emption points passed in this op
+        self.stat_fault = None  # (entry base name, errno): lookups of that
+        #                         entry fail with that errno during this op
+        self.stat_faults_fired = 0
         self.on_checkpoint = None   # optional callable(count, kind)
         self.make_error = None  # callable(what) -> exception (CalledProcessError)
 
-    def begin(self, order=0, crash_at=None, fail_at=None):
+    def begin(self, order=0, crash_at=None, fail_at=None, stat_fault=None):
+        self.stat_fault = stat_fault
+        self.stat_faults_fired = 0
         self.order = order or 0
         self.steps = 0
         self.commands = 0
@@ -85,7 +94,16 @@ class Seam:
             self.checkpoints += 1
             self.on_checkpoint(self.checkpoints, kind, what)
 
+    def lookup(self, path):
+        """stat()/lstat() of `path` is about to be made: injected failure?"""
+        fault = self.stat_fault
+        if fault is not None and _real_os.path.basename(path) == fault[0]:
+            self.stat_faults_fired += 1
+            self.failed = True
+            raise OSError(fault[1], _real_os.strerror(fault[1]), path)
+
     def end(self):
+        self.stat_fault = None
         self.crash_at = None
         self.fail_at = None
         self.order = 0
@@ -141,12 +159,21 @@ class SeamOS:
                 seam.tick('fs:unlink', _short((path,)))
                 return _real_os.unlink(path, *args, **kwargs)
             self._overrides['unlink'] = unlink
-        if stat_checkpoint:
-            # the per-entry stat() of a scan loop is a pre-emption point
-            def stat(path, *args, **kwargs):
+        def stat(path, *args, **kwargs):
+            if stat_checkpoint:
+                # the per-entry stat() of a scan loop is a pre-emption point
                 seam.checkpoint('stat')
-                return _real_os.stat(path, *args, **kwargs)
-            self._overrides['stat'] = stat
+            seam.lookup(path)
+            return _real_os.stat(path, *args, **kwargs)
+
+        def lstat(path, *args, **kwargs):
+            seam.lookup(path)
+            return _real_os.lstat(path, *args, **kwargs)
+        # (an override supplied by the caller wins)
+        self._overrides.setdefault('stat', stat)
+        self._overrides.setdefault('lstat', lstat)
+        self._overrides.setdefault('path', SeamPath(self._overrides['stat'],
+                                                    self._overrides['lstat']))
 
     def __getattr__(self, name):
         if name.startswith('_seam') or name == '_overrides':
@@ -166,6 +193,51 @@ class SeamOS:
 
     def listdir(self, path='.'):
         return self._seam.permute(_real_os.listdir(path))
+
+
+class SeamPath:
+    """`os.path` of a SeamOS: the predicates that look a path up do it
+    through the seam's stat()/lstat() (like genericpath: any OSError means
+    "no"), so an injected lookup failure reaches them too."""
+
+    def __init__(self, stat, lstat):
+        self._stat = stat
+        self._lstat = lstat
+
+    def __getattr__(self, name):
+        return getattr(_real_os.path, name)
+
+    def exists(self, path):
+        try:
+            self._stat(path)
+        except (OSError, ValueError):
+            return False
+        return True
+
+    def lexists(self, path):
+        try:
+            self._lstat(path)
+        except (OSError, ValueError):
+            return False
+        return True
+
+    def isdir(self, path):
+        try:
+            return _stat_mod.S_ISDIR(self._stat(path).st_mode)
+        except (OSError, ValueError):
+            return False
+
+    def isfile(self, path):
+        try:
+            return _stat_mod.S_ISREG(self._stat(path).st_mode)
+        except (OSError, ValueError):
+            return False
+
+    def islink(self, path):
+        try:
+            return _stat_mod.S_ISLNK(self._lstat(path).st_mode)
+        except (OSError, ValueError, AttributeError):
+            return False
 
 
 class SeamGlob:
